@@ -31,7 +31,7 @@ def run(ctx):
     ]
     tr = base.TraceRun(ctx, "VERIF_C18_TRACE", "Trace_Measures", {"N": 2}, "c18")
     windows = []
-    for g in ([2, 30] if q else [1, 2, 3, 6, 14, 25, 30]):
+    for g in ([2, 9, 30] if q else [1, 2, 3, 6, 14, 25, 30]):
         s = 1 << g
         win = min(4, s)
         f = rnd.randrange(6)
@@ -41,7 +41,7 @@ def run(ctx):
         if not q:
             windows.append((rnd.choice([2, 5]), g, max(0, s // 2 - 2), max(0, s // 2 - 2), win, g))
     all26 = list(range(1, 27))
-    scenes = base.scenes_from_tlc(ctx, windows, 1, all26 if not q else rnd.sample(all26, 10))
+    scenes = base.scenes_from_tlc(ctx, windows, 1, all26 if not q else rnd.sample(all26, 14))
     w2 = [dict(c, op="c18.w2") for c in scenes if c["op"] == "c10.w2"]
     w1 = [dict(c, op="c18.w1") for c in scenes if c["op"] == "c10.w1"]
     for c in w2:
@@ -54,23 +54,23 @@ def run(ctx):
         for c in w2:
             bywin.setdefault((c["f"], c["g"]), []).append(c)
         w2 = [c for v in bywin.values() for c in (sorted(v, key=lambda c: -len(c["holes"]))[:6] + v[:14])]
-        w1 = w1[:60]
+        w1 = w1[:350]
     else:
-        w1 = w1[:900]
+        w1 = w1[:1968]
     # degenerate slivers
     sl = []
     r = ctx.tlc("Gen_Measures", vlib.cfg(constants={"N": 1, "SubIdx": set(all26)}, invariants=["SignThm", "Emit"]), workers=8)
     sl += r.tagged.get("CASE", [])
     if not q:
-        r = ctx.tlc("Gen_Measures", vlib.cfg(constants={"N": 2, "SubIdx": set(rnd.sample(range(1, 125), 40))},
+        r = ctx.tlc("Gen_Measures", vlib.cfg(constants={"N": 2, "SubIdx": set(rnd.sample(range(1, 125), 60))},
                                              invariants=["SignThm", "Emit"]), workers=8)
         sl += r.tagged.get("CASE", [])
     rnd.shuffle(sl)
     if q:
-        sl = sl[:60]
+        sl = sl[:420]
     fam = []
     for name, cnt in (("regular", 30), ("star", 30), ("longedge", 40)):
-        for k in range(1 if q else 8):
+        for k in range(3 if q else 30):
             fam.append({"op": "c18.rand", "family": name, "seed": ctx.seed * 100 + k, "count": cnt if q else cnt * 2,
                         "maxn": 1000 if q else 10000})
     batch = w2 + w1 + sl + fam
